@@ -252,6 +252,28 @@ theorem effect_twin (hS : Sep h) (hT : Twin r1 r2 h h') {op : Op} (hf : op.fixed
         cases hy : kvGet? kvs src with
         | none => rfl
         | some y => simp only [Option.map_some, renEffect, renCell, kvSet_map, ren_root, List.map_nil]
+  | fmtSetAt p k src keep =>
+    have hk : keep = [] := keep_nil (by simpa only [Op.fixed] using hf)
+    subst hk
+    simp only [effect, fmtArena_nil, shiftKeep_nil]
+    by_cases hg : src.reg.isShared = true
+    · simp only [hg, if_true]
+      rw [twin_resolve_root hS hT]
+      cases hx : resolve h (root r1) p with
+      | none => rfl
+      | some x =>
+        have hxr : x.reg = .run r1 := resolve_reg hS hx
+        simp only [Option.map_some]
+        rw [twin_get hT hxr, twin_len hT, twin_copyArena hS hT hg]
+        cases hc : h.get? x with
+        | none => rfl
+        | some c =>
+          cases c with
+          | leaf v => rfl
+          | list rs => rfl
+          | dict kvs =>
+            simp only [Option.map_some, renCell, renEffect, ← kvSet_map, shiftRef_reg, ren_mk]
+    · simp only [hg]; rfl
 
 /-! ### applying twin effects -/
 
